@@ -403,6 +403,22 @@ def _counting_hash(a, b):
 
 rtree.merkle_hash = _counting_hash
 
+# ... and every hash made through `settings.merkle_hash` by any OTHER module that imported the function by name
+# (the function looks `sha256` up in the globals of remerkleable.settings at call time); calls that come through the
+# counting wrapper above are not counted twice
+import remerkleable.settings as _rsettings  # noqa: E402
+if hasattr(_rsettings, 'sha256'):
+    _orig_sha256 = _rsettings.sha256
+
+    def _counting_sha256(*a, **kw):
+        import sys as _sys
+        caller = _sys._getframe(1)
+        # (this module may be loaded twice, as the script and as `pyimpl`: wrappers are recognised by name)
+        if caller.f_code.co_name == 'merkle_hash' and caller.f_back is not None and caller.f_back.f_code.co_name != '_counting_hash':
+            _hash_calls[0] += 1
+        return _orig_sha256(*a, **kw)
+    _rsettings.sha256 = _counting_sha256
+
 
 def hashes_during(f):
     before = _hash_calls[0]
